@@ -261,6 +261,7 @@ struct HSys {
             v.push_back({"A+=B", -1, 0});
             v.push_back({"A+=move(B)", -1, 0});
             v.push_back({"A+=A (const&)", -1, 0});
+            v.push_back({"A+=move(A)", -1, 0});
             v.push_back({"A.Reserve(#)", 0, 0});
             v.push_back({"A.Reserve(#)", 2, 0});
             v.push_back({"A.Reserve(#)", 3, 0});
@@ -510,6 +511,8 @@ struct HSys {
                 ins(a, 0, kk, v);
                 mput(ma, kk, v);
             }
+        } else if (n == "A+=move(A)") {
+            a += std::move(a); // merging a table into itself, by move as well, leaves it as it is
         } else if (n == "A+=A (const&)") {
             const T &self = a; // merging a table into itself leaves it as it is
             a += self;
